@@ -1259,6 +1259,89 @@ def main_neighbors(write=True):
     return _regen(translate_neighbors, GEN_NEIGH, SNAP_NEIGH, write)
 
 
+HEADER_GRID = """/-
+  GENERATED by harness/py2lean.py from the source text of /repo on every check run — do not edit.
+  `grid_to_table` (utils.py), Dataset branch, statement by statement over an xarray container seen through look-ups by name
+  (`Dataset.varOf / extraOf / coordOf`); `grid_coords_keys` is `grid.coords.keys()`.  Props/C18.lean proves it equal to the model.
+  (The DataArray branch only builds `data_names` / `data_arrays` / `coordinate_names` differently; the correspondence covers it.)
+-/
+import VerdeModel.Model.Grid
+namespace Verde.Gen
+open Verde
+
+"""
+GEN_GRID = os.path.join(VERIF, "lean", "VerdeModel", "Gen", "Grid.lean")
+SNAP_GRID = os.path.join(VERIF, "lean", "VerdeModel", "GenSnapshot", "Grid.lean.txt")
+
+
+def translate_grid():
+    path = "verde/utils.py"
+    src = open(os.path.join(REPO, path)).read()
+    fn = find_func(ast.parse(src), "grid_to_table")
+    if [a.arg for a in fn.args.args] != ["grid"]:
+        _fail(fn, "grid_to_table signature")
+    b = [x for x in fn.body if not (isinstance(x, ast.Expr) and isinstance(x.value, ast.Constant))]
+    un = ast.unparse
+    k = 0
+    st = b[k]
+    if not (isinstance(st, ast.If) and un(st.test) == "hasattr(grid, 'data_vars')" and len(st.body) == 3 and st.orelse):
+        _fail(st, "the Dataset / DataArray switch")
+    want = ["data_names = list(grid.data_vars.keys())", "data_arrays = [grid[name].values.ravel() for name in data_names]",
+            "coordinate_names = list(grid[data_names[0]].dims)"]
+    if [un(x) for x in st.body] != want:
+        _fail(st, "Dataset branch")
+    lines = ["let data_names := grid.vars.map (·.1)      -- list(grid.data_vars.keys())",
+             "let data_arrays := data_names.map fun name => ravel2 (grid.varOf name)      -- [grid[name].values.ravel() for name in data_names]",
+             "let coordinate_names := [grid.dims.1, grid.dims.2]      -- list(grid[data_names[0]].dims): every variable has the grid's dims"]
+    k += 1
+    for var in ("north", "east"):
+        st = b[k]
+        v = st.value if isinstance(st, ast.Assign) and _is_name(st.targets[0], var) else None
+        ok = (isinstance(v, ast.Attribute) and v.attr == "values" and isinstance(v.value, ast.Subscript) and un(v.value.value) == "grid.coords"
+              and isinstance(v.value.slice, ast.Subscript) and _is_name(v.value.slice.value, "coordinate_names") and _const_int(v.value.slice.slice) in (0, 1))
+        if not ok:
+            _fail(st, f"{var} = grid.coords[coordinate_names[i]].values")
+        lines.append(f"let {var} := grid.coordOf (coordinate_names.getD {_const_int(v.value.slice.slice)} \"\")      -- {un(st)}")
+        k += 1
+    st = b[k]
+    v = st.value if isinstance(st, ast.Assign) and _is_name(st.targets[0], "coordinates") else None
+    rev = False
+    if isinstance(v, ast.Subscript) and isinstance(v.slice, ast.Slice) and v.slice.lower is None and v.slice.upper is None and _const_int(v.slice.step) == -1:
+        rev, v = True, v.value
+    ok = (isinstance(v, ast.ListComp) and un(v.elt) == "i.ravel()" and len(v.generators) == 1 and _is_name(v.generators[0].target, "i") and not v.generators[0].ifs
+          and isinstance(v.generators[0].iter, ast.Call) and un(v.generators[0].iter.func) == "np.meshgrid" and len(v.generators[0].iter.args) == 2
+          and all(isinstance(a, ast.Name) and a.id in ("east", "north") for a in v.generators[0].iter.args) and not v.generators[0].iter.keywords)
+    if not ok:
+        _fail(st, "coordinates = [i.ravel() for i in np.meshgrid(...)]")
+    m0, m1 = [a.id for a in v.generators[0].iter.args]
+    lines.append(f"let coordinates := ([(meshgrid {m0} {m1}).1, (meshgrid {m0} {m1}).2].map fun i => ravel2 i){'.reverse' if rev else ''}      -- {un(st)}")
+    k += 1
+    if un(b[k]) != "extra = [coord for coord in grid.coords.keys() if coord not in coordinate_names]":
+        _fail(b[k], "extra = [...]")
+    lines.append("let extra := grid_coords_keys.filter fun coord => !(coordinate_names.contains coord)      -- " + un(b[k]))
+    k += 1
+    st = b[k]
+    if not (isinstance(st, ast.For) and _is_name(st.target, "coord") and _is_name(st.iter, "extra") and not st.orelse
+            and [un(x) for x in st.body] == ["coordinates.append(grid[coord].values.ravel())", "coordinate_names.append(coord)"]):
+        _fail(st, "the loop over the extra coordinates")
+    lines += ["let (coordinates, coordinate_names) := extra.foldl (fun (st : List (List Rat) × List String) coord =>      -- for coord in extra:",
+              "    (st.1 ++ [ravel2 (grid.extraOf coord)], st.2 ++ [coord])) (coordinates, coordinate_names)      --   coordinates.append(...); coordinate_names.append(coord)"]
+    k += 1
+    rest = [un(x) for x in b[k:]]
+    if rest != ["data_dict = dict(zip(coordinate_names, coordinates))", "data_dict.update(dict(zip(data_names, data_arrays)))", "return pd.DataFrame(data_dict)"]:
+        _fail(b[k], "the dictionary of columns")
+    lines += ["let data_dict := coordinate_names.zip coordinates      -- dict(zip(coordinate_names, coordinates))",
+              "data_dict ++ data_names.zip data_arrays      -- data_dict.update(dict(zip(data_names, data_arrays))) (distinct names: an update appends); DataFrame columns in dict order"]
+    seg = ast.get_source_segment(src, fn)
+    return (HEADER_GRID + f"/-- translated statement by statement from {path}:{fn.lineno}-{fn.end_lineno} (grid_to_table), sha256 {hashlib.sha256(seg.encode()).hexdigest()[:16]} -/\n"
+            "def gridToTable (grid : Dataset) (grid_coords_keys : List String) : List (String × List Rat) :=\n"
+            + "\n".join("  " + ln for ln in lines) + "\n\nend Verde.Gen\n")
+
+
+def main_grid(write=True):
+    return _regen(translate_grid, GEN_GRID, SNAP_GRID, write)
+
+
 HEADER_TREND = """/-
   GENERATED by harness/py2lean.py from the source text of /repo on every check run — do not edit.
   `polynomial_power_combinations` (trend.py); Props/C03.lean proves it equal to the model's explicit monomial order.
